@@ -148,3 +148,90 @@ func adoptAlwaysWrites(r *Report, p *Program, rule string) {
 		r.Check(rule, FK(cl)+"[always-writes]", p.Pos(cl.Pos()), w == nil, "adopt closure returns true on every path", "the adoption's update closure can report 'nothing to do' "+pathWhy(w)+": AtomicUpdate then returns success without writing and ClaimObject counts the object as adopted although its controller is someone else")
 	}
 }
+
+// rmwResultSet (C12 R12.7, C13 R13.5, C10): the read-modify-write helpers
+// return the object callers go on working with (finalizer.SyncObject hands it
+// back as "the updated parent"). Whenever the retry closure can end without an
+// error it must have assigned the named result — also on the 'nothing to do'
+// branch, which is exactly the branch taken when a failed sync is retried with a
+// stale cache.
+func rmwResultSet(r *Report, p *Program, rule string) {
+	r.Rule(rule, "AtomicUpdate/AtomicStatusUpdate: every path of the retry closure that may end without error has assigned the named result (callers dereference it)")
+	r.Floor(rule, 2)
+	for _, key := range []string{"dynamic/clientset.ResourceClient.AtomicUpdate", "dynamic/clientset.ResourceClient.AtomicStatusUpdate",
+		"client/generated/clientset/internalclientset/typed/metacontroller/v1alpha1.controllerRevisions.UpdateWithRetries"} {
+		f := p.Func(key)
+		if f == nil {
+			if !strings.Contains(key, "UpdateWithRetries") {
+				r.Fail(rule, key, "-", "anchor-lost", "function not found")
+			}
+			continue
+		}
+		// is the object result used by any caller?
+		used := false
+		for _, cs := range p.CallersOf(f) {
+			if v := cs.Instr.Value(); v != nil {
+				if refs := v.Referrers(); refs != nil {
+					for _, u := range *refs {
+						if ex, ok := u.(*ssa.Extract); ok && ex.Index == 0 && ex.Referrers() != nil && len(*ex.Referrers()) > 0 {
+							used = true
+						}
+						if _, ok := u.(*ssa.Return); ok {
+							used = true
+						}
+					}
+				}
+			}
+		}
+		if !used {
+			r.Check(rule, FK(f)+"[result-unused]", p.Pos(f.Pos()), true, "no caller uses the object result", "")
+			continue
+		}
+		// the named result cell
+		var cell *ssa.Alloc
+		for _, b := range f.Blocks {
+			for _, in := range b.Instrs {
+				if a, ok := in.(*ssa.Alloc); ok && a.Comment == "result" {
+					cell = a
+				}
+			}
+		}
+		if cell == nil {
+			// result is not captured: it is assigned in f itself — require a non-nil store before each maybe-nil-error return
+			r.Check(rule, FK(f)+"[result-set]", p.Pos(f.Pos()), false, "", "cannot find the named result cell 'result' captured by the retry closure")
+			continue
+		}
+		ok, why := true, ""
+		ncl := 0
+		for _, cl := range engine.Closures(f) {
+			var fv *ssa.FreeVar
+			for _, v := range cl.FreeVars {
+				if engine.FreeVarBinding(v) == ssa.Value(cell) {
+					fv = v
+				}
+			}
+			if fv == nil || engine.ErrorResultIndex(cl) < 0 {
+				continue
+			}
+			ncl++
+			w := engine.Query{Fn: cl, Target: func(in ssa.Instruction) bool {
+				rt, isR := in.(*ssa.Return)
+				return isR && !isErrReturn(rt)
+			}, CutInstr: func(in ssa.Instruction) bool {
+				st, isS := in.(*ssa.Store)
+				if !isS || st.Addr != ssa.Value(fv) {
+					return false
+				}
+				c, isC := st.Val.(*ssa.Const)
+				return !(isC && c.IsNil())
+			}}.Find()
+			if w != nil {
+				ok, why = false, "the retry closure can end without error and without assigning result ("+pathWhy(w)+"): the helper then returns (nil, nil) and finalizer.SyncObject hands a nil parent to the sync, which dereferences it"
+			}
+		}
+		if ncl == 0 {
+			ok, why = false, "no retry closure captures the named result"
+		}
+		r.Check(rule, FK(f)+"[result-set]", p.Pos(f.Pos()), ok, "result assigned on every path that may succeed", why)
+	}
+}
